@@ -7,6 +7,25 @@ use crate::wire::show_color;
 use crate::Ctx;
 use pastel::Color;
 
+/// A colour with (approximately) the given float channels, built through HSL (hexcone formulas).
+fn from_rgbf(r: f64, g: f64, b: f64) -> Color {
+    let mx = r.max(g).max(b);
+    let mn = r.min(g).min(b);
+    let c = mx - mn;
+    let l = (mx + mn) / 2.0;
+    let h = if c == 0.0 {
+        0.0
+    } else if mx == r {
+        60.0 * (((g - b) / c) % 6.0)
+    } else if mx == g {
+        60.0 * ((b - r) / c + 2.0)
+    } else {
+        60.0 * ((r - g) / c + 4.0)
+    };
+    let s = if l <= 0.0 || l >= 1.0 { 0.0 } else { c / (1.0 - (2.0 * l - 1.0).abs()) };
+    Color::from_hsl(h, s, l)
+}
+
 pub fn run(s: &mut Session, ctx: &Ctx) {
     let mut rng = Rng::new(ctx.seed);
     let black = Color::black();
@@ -16,6 +35,34 @@ pub fn run(s: &mut Session, ctx: &Ctx) {
 
     // gray luminances, for the "within one 8-bit gray step" clause
     let gray_lum: Vec<f64> = (0..=255u8).map(|k| Color::from_rgb(k, k, k).luminance()).collect();
+
+    // ---- float channels around the cut of the sRGB linearisation: raising one channel a little
+    // must not lower the luminance (beyond float noise) ----
+    {
+        let mut rng = crate::gen::Rng::new(ctx.seed ^ 0x9e37);
+        let n = if ctx.thorough { 200_000 } else { 6_000 };
+        for i in 0..n {
+            let cut = *rng.pick(&[0.03928, 0.04045, 0.0031308]);
+            let lo = cut - rng.unit() * rng.unit() * 3e-5;
+            let hi = lo + rng.unit() * rng.unit() * 6e-5;
+            let (u, v) = (rng.unit(), rng.unit());
+            // (from_rgba_float quantises to 8 bits, so the float colour is built through HSL)
+            let (u, v) = if i % 2 == 0 { (u * 0.1, v * 0.1) } else { (u, v) };
+            let (a, b) = match i % 3 {
+                0 => (from_rgbf(lo, u, v), from_rgbf(hi, u, v)),
+                1 => (from_rgbf(u, lo, v), from_rgbf(u, hi, v)),
+                _ => (from_rgbf(u, v, lo), from_rgbf(u, v, hi)),
+            };
+            // compare only when the stored colour really moved that one channel up and no other down
+            let (fa, fb) = (a.to_rgba_float(), b.to_rgba_float());
+            if !(fb.r >= fa.r && fb.g >= fa.g && fb.b >= fa.b) {
+                continue;
+            }
+            let (la, lb) = (a.luminance(), b.luminance());
+            s.count_case("", true);
+            s.check(lb >= la - 1e-12, "luminance-nondecreasing-in-float-channel", "Color::luminance", || format!("channels ({:?},{:?},{:?}) -> ({:?},{:?},{:?})", fa.r, fa.g, fa.b, fb.r, fb.g, fb.b), || format!("luminance {:?} -> {:?}", la, lb));
+        }
+    }
 
     // ---- all 2^24 colours (quick: every 2nd level per channel = 2^21; thorough: all) ----
     let step = if ctx.thorough { 1 } else { 2 };
